@@ -388,7 +388,9 @@ static void lap_expect_seek(hnd_t *x,long t0,int rs0,int cur0){
 }
 static void do_seek(int h,const char *cmd,const char *targ){
   hnd_t *x=&H[h]; OggVorbis_File *vf=&x->vf;
-  long pos = !strncmp(targ,"c:",2)? (long)ov_raw_tell(vf)+atol(targ+2) : x->F? resolve(x->F,targ) : atol(targ);     /* c:<d> = the handle's current byte position + d */
+  /* c:<d> = the handle's current byte position + d; the twin of a call gets the SAME argument as the call it repeats (its own cursor may stand elsewhere) */
+  static long lastc=0; int tw=g_tw;
+  long pos = !strncmp(targ,"c:",2)? (tw? lastc : (lastc=(long)ov_raw_tell(vf)+atol(targ+2))) : x->F? resolve(x->F,targ) : atol(targ);
   long t0=vf->pcm_offset; int rs0=vf->ready_state, cur0=vf->current_link; long off0=vf->offset;
   call_begin(h);
   int ret; const char *name;
